@@ -9,4 +9,5 @@ Extraction "c19_model.ml"
   pb_write_i KeyEnc.enc_pb KeyEnc.pb_size rpaths shape rsize
   to_user_parts_go split_object_go split_object_relation_go from_user_parts_go
   model_cost has_cycle rw_nodes struct_walk rdepth wire_min
+  fate_of recover_to_error
   Paging.itoa Paging.parse_from Paging.deserialize.
